@@ -59,6 +59,9 @@ CLAIMED = {
  "C18": ("exhaustive enumeration of the input domains: all 2^32 integers and all non-NaN float32 bit patterns walked in numeric order (adjacent pairs), all strings over a 6-byte alphabet up to length 4/5 (all pairs), all row ids over byte lanes",
          "The whole finite domain is enumerated on the real exported encode/decode/pack functions (thorough: every int32 and every float32; quick: windows around every byte-lane/sign/exponent boundary plus a stride): round trip, order of adjacent values (total order by transitivity), same-key adjacency (largest-rid entry of a key sorts before smallest-rid entry of the next key), ScanKey window containment, B-tree zero padding.",
          "containers compare encoded keys bytewise; strings without NUL; the B-tree's 6-byte rid squeeze is mirrored here and exercised for real in C17", "§4 C18"),
+ "C19": ("preemption-bounded schedule enumeration of the concurrent harness bodies (C04/C05/C12/C17 scenarios, writer||writer scenarios, DML next to checkpoint and statistics pass) in a -race build; the Go race detector is the per-schedule oracle, scheduler hand-offs hidden from it",
+         "Every schedule with <=1 (thorough <=2) preemptions of ~45 two/three-goroutine scenarios is executed on the real engine built with -race; hand-offs of the cooperative scheduler are wrapped in runtime.RaceDisable/Enable and the scheduler's own book-keeping is excluded from instrumentation (//go:norace), so the detector sees exactly the program's own synchronisation; goroutine creation and thread exit remain real happens-before edges. A report counts iff both access sites lie in the data path; findings are identified by the pair of functions.",
+         "happens-before race detection: a race is reported only if the racing accesses occur in an explored schedule; reports outside the data path are listed, not judged; the maintenance scenario contains map-iteration nondeterminism (tolerated, reported as not exhaustive)", "§4 C19"),
  "C20": ("nested crash-point enumeration: every prefix (and flush-run subset, torn log tail) of the recovery run's own I/O trace, for every first-generation crash image",
          "For every C01 history with <=1 (thorough <=2) DML statements and every first-generation crash point whose recovery is correct, the recovery itself is run under the I/O recorder; every crash point inside it yields a second-generation image which is recovered again and must give exactly the tables of the uninterrupted recovery (third generation in thorough mode).",
          "as C01; torn page writes excluded (known finding of C01); differential oracle against the uninterrupted recovery of the same image", "§4 C20"),
